@@ -3,9 +3,11 @@
 while true; do
   found=0
   for d in /tmp/wt/out/C*/[0-9]*; do
-    if [ -f $d/patch.diff ] && [ -f $d/demo.py ] && [ -f $d/meta.json ] && [ ! -f $d/validation.json ]; then
+    if [ -f $d/patch.diff ] && [ -f $d/demo.py ] && [ -f $d/meta.json ] && [ ! -f $d/validation.json ] && [ ! -f $d/.validating ]; then
       found=1
+      touch $d/.validating
       /verif/tools/validate_seed.sh $d >> /tmp/wt/validate_loop.log 2>&1
+      rm -f $d/.validating
     fi
   done
   if [ -f /tmp/wt/STOP_VALIDATE ]; then exit 0; fi
